@@ -1,7 +1,6 @@
 package c12
 
 import (
-	"unsafe"
 	"bytes"
 	"context"
 	"encoding/binary"
@@ -11,6 +10,7 @@ import (
 	stdhttp "net/http"
 	"sort"
 	"strings"
+	"unsafe"
 	"verif/ref/deephash"
 
 	"github.com/cloudwego/dynamicgo/conv"
@@ -146,6 +146,7 @@ var opNames = []string{
 	"t2j.HTTPConv.Do(NoCopyString,header)",
 	"t2j.Do(sparse,field-70-absent)",
 	"t2j.Do(reply-wrapper,exception-100)",
+	"t2j.Do(ConvertException): text of the returned error",
 	"t2j.Do(http,raw_body from IDL default)",
 	"j2p.Do(nested)",
 	"p2j.Do(nested)",
@@ -158,6 +159,7 @@ var opNames = []string{
 	"thrift.GetTree(fork of shared template,other message)",
 	"thrift.Load+Marshal(pooled)",
 	"thrift.MarshalTo(Small)",
+	"thrift.MarshalTo(the value's own descriptor object), caller then reuses its input buffer",
 	"thrift.SetMany(fork)",
 	"thrift.DescriptorToPathNode(Shuffled)",
 	"proto.Load+Marshal(pooled)",
@@ -173,15 +175,17 @@ type op struct {
 }
 
 type fixture struct {
-	svc      *thrift.ServiceDescriptor
-	svc2     *thrift.ServiceDescriptor // parsed with UseDefaultValue
-	hcResp2  *t2j.HTTPConv
-	sparseT  *thrift.TypeDescriptor
-	innerT   *thrift.TypeDescriptor
+	svc     *thrift.ServiceDescriptor
+	svc2    *thrift.ServiceDescriptor // parsed with UseDefaultValue
+	hcResp2 *t2j.HTTPConv
+	sparseT *thrift.TypeDescriptor
+	innerT  *thrift.TypeDescriptor
 	// arguments the callers own and share (read-only for the library): a path used by several ops
 	sharedPath, sharedPathInit []generic.Path
 	// a path-only query tree (what GetTree / Assgin take) shared by every caller: each call forks it
 	template generic.PathNode
+	// assertions of the ops themselves (collected by soloOf / the explorers after every run)
+	failed   []string
 	reqT     *thrift.TypeDescriptor
 	respT    *thrift.TypeDescriptor
 	smallT   *thrift.TypeDescriptor
@@ -197,8 +201,8 @@ type fixture struct {
 	t2jc     t2j.BinaryConv
 	j2pc     j2p.BinaryConv
 	p2jc     p2j.BinaryConv
-	p2jc64   p2j.BinaryConv  // Int642String: shared like the others
-	hcReq    *j2t.HTTPConv   // ONE HTTP converter per direction shared by every op (each call brings its own options)
+	p2jc64   p2j.BinaryConv // Int642String: shared like the others
+	hcReq    *j2t.HTTPConv  // ONE HTTP converter per direction shared by every op (each call brings its own options)
 	hcResp   *t2j.HTTPConv
 	descDump string
 }
@@ -559,6 +563,15 @@ func newFixture() (*fixture, error) {
 	add("t2j.Do(reply-wrapper,exception-100)", func() ([]byte, error) {
 		return f.t2jc.Do(ctx, f.fnM.Response(), in["thrift-reply-exception"])
 	})
+	add("t2j.Do(ConvertException): text of the returned error", func() ([]byte, error) {
+		// the result the caller keeps is the ERROR: its text, viewed in place (the held string itself), must stay intact
+		cv := t2j.NewBinaryConv(conv.Options{ConvertException: true})
+		_, err := cv.Do(ctx, f.fnM.Response(), in["thrift-reply-exception"])
+		if err == nil {
+			return nil, fmt.Errorf("no exception error")
+		}
+		return strBytes(err.Error()), nil
+	})
 	add("t2j.Do(http,raw_body from IDL default)", func() ([]byte, error) {
 		// the body slice exactly as the response object was handed it
 		rs := &aliasSetter{}
@@ -626,6 +639,22 @@ func newFixture() (*fixture, error) {
 	})
 	add("thrift.MarshalTo(Small)", func() ([]byte, error) {
 		return generic.NewValue(f.reqT, in["thrift-nested"]).MarshalTo(f.smallT, &generic.Options{})
+	})
+	add("thrift.MarshalTo(the value's own descriptor object), caller then reuses its input buffer", func() ([]byte, error) {
+		// the caller owns buf; once MarshalTo has returned it may do with buf what it likes
+		buf := append(make([]byte, 0, len(in["thrift-nested"])+16), in["thrift-nested"]...)
+		out, err := generic.NewValue(f.reqT, buf).MarshalTo(f.reqT, &generic.Options{})
+		if err != nil {
+			return nil, err
+		}
+		keep := append([]byte{}, out...)
+		for i := range buf {
+			buf[i] = 0xEE
+		}
+		if !bytes.Equal(out, keep) {
+			f.fail("the bytes returned by MarshalTo change when the caller overwrites the input buffer it had passed (the result is a view of the input)")
+		}
+		return out, nil
 	})
 	add("thrift.SetMany(fork)", func() ([]byte, error) {
 		n := generic.NewNode(thrift.STRUCT, in["thrift-nested"]).Fork()
@@ -740,6 +769,8 @@ func stable(v interface{}) string {
 
 // descMem is the fingerprint of every memory word reachable from the two service descriptors, unexported
 // fields included ("descriptor graphs: built once, must be read-only afterwards").
+func (f *fixture) fail(what string) { f.failed = append(f.failed, what) }
+
 // mkTemplate: Req.msg, Req.items[1].b, Req.one.{a,b} - paths only, no node carries a value or a type
 func mkTemplate() generic.PathNode {
 	return generic.PathNode{Next: []generic.PathNode{
